@@ -45,8 +45,8 @@ Lemma ipv_step_shape ips locals p rest st st' :
        (match p_size p with
         | ESym s =>
             s = hash_name (p_name p)
-            \/ (mem s ips = false /\ lookup s (st_locals st) = None /\ al = (st_locals st ++ [(s, ESym (hash_name (p_name p)))])%list)
-            \/ (exists v, ((mem s ips = false /\ lookup s (st_locals st) = Some v) \/ (mem s ips = true /\ v = ESym s))
+            \/ ((mem s ips || mem s (keys locals)) = false /\ lookup s (st_locals st) = None /\ al = (st_locals st ++ [(s, ESym (hash_name (p_name p)))])%list)
+            \/ (exists v, (((mem s ips || mem s (keys locals)) = false /\ lookup s (st_locals st) = Some v) \/ ((mem s ips || mem s (keys locals)) = true /\ v = ESym s))
                           /\ cs = (st_constraints st ++ [mk_constraint (ESym (hash_name (p_name p))) v])%list)
         | sz =>
             exists rhs, cs = (st_constraints st ++ [mk_constraint (ESym (hash_name (p_name p))) rhs])%list
@@ -67,7 +67,7 @@ Proof.
     destruct (String.eqb s (hash_name (p_name p))) eqn:Eh.
     + do 2 eexists. split; [exact H|]. split; [exists []; rewrite app_nil_r; reflexivity|].
       split; [exists []; rewrite app_nil_r; reflexivity|]. left. apply String.eqb_eq. exact Eh.
-    + destruct (mem s ips) eqn:Em.
+    + destruct (mem s ips || mem s (keys locals)) eqn:Em.
       { (* the symbol is a declared parameter: a constraint against the parameter *)
         do 2 eexists. split; [exact H|]. split; [exists []; rewrite app_nil_r; reflexivity|]. split; [eexists; reflexivity|].
         right. right. exists (ESym s). split; [right; split; reflexivity|reflexivity]. }
@@ -153,11 +153,11 @@ Proof.
     rewrite Hc2, Hcs. apply in_or_app. left. apply in_or_app. right. left. reflexivity.
 Qed.
 
-(* (2') a port whose declared size is a declared PARAMETER of the routine does not define that symbol: it yields the
-   constraint `#port = parameter`, so what flows into the port is compared with the parameter's value *)
+(* (2') a port whose declared size is a declared PARAMETER or LOCAL VARIABLE of the routine does not define that symbol: it
+   yields the constraint `#port = symbol`, so what flows into the port is compared with the value the routine gives it *)
 Lemma ipv_loop_param ips locals : forall ps st st',
     ipv_loop ips locals ps st = Ok st' ->
-    forall p s, In p ps -> p_size p = ESym s -> s <> hash_name (p_name p) -> mem s ips = true ->
+    forall p s, In p ps -> p_size p = ESym s -> s <> hash_name (p_name p) -> (mem s ips || mem s (keys locals)) = true ->
       In (mk_constraint (ESym (hash_name (p_name p))) (ESym s)) (st_constraints st').
 Proof.
   induction ps as [|p0 rest IH]; intros st st' H p s Hin Hsz Hne Hm; [destruct Hin|].
@@ -171,7 +171,7 @@ Qed.
 Theorem ipv_parameter_sized_port r r' :
   introduce_port_variables_node r = Ok r' ->
   forall p s, In p (rports r) -> p_dir p <> DOut -> p_size p = ESym s -> s <> hash_name (p_name p) ->
-              mem s (rparams r) = true ->
+              (mem s (rparams r) || mem s (keys (rlocals r))) = true ->
               In (mk_constraint (ESym (hash_name (p_name p))) (ESym s)) (rconstraints r').
 Proof.
   destruct r as [n t ips lo li ps rs c rp cs ch]. cbn [introduce_port_variables_node]. intro H.
